@@ -17,7 +17,7 @@ FLAVOURS = ["rel"]
 TARGETS = ["bsx", "vtool"]
 RULE = ("Hypothesis generates a directory tree (depth <= 4, fan-out <= 4; files, directories, symlinks), a command "
         "whose input is that directory as a tree node ('tree/') or a node marked is-directory-structure, with or "
-        "without content-exclusion-patterns (literal names, '*.ext', 'pre*', '?x'), and a history of 1-4 single or "
+        "without content-exclusion-patterns (literal names, '*.ext', 'pre*', '?x', bracket expressions '[ab]x' 'pre[0-9]' '[!a]x' 'c.[oa]', an escape '\\.x'), and a history of 1-4 single or "
         "compound edits -- add / remove / rename / retype at any depth, content edit in place, mtime-only touch, "
         "chmod, and (a quarter of the histories) one edit of the node's DECLARATION between builds: tree <-> structure "
         "or another pattern list, after which the new declaration's semantics are demanded -- each followed by a build in a NEW process; every edit (and the parent directory when an entry is "
@@ -40,7 +40,9 @@ def fnmatch(pat, name):
 
 
 NAMES = ["a", "b", "ax", "bx", "c.o", "d.o", "pre1", "pre2", "tmp", "x", ".e.o", ".x"]   # (dot files match wildcards too: flags 0)
-PATTERNS = ["*.o", "pre*", "?x", "tmp", "a", "*"]
+# (bracket expressions and backslash escapes: several pattern characters match ONE name character, so such a
+# pattern is longer than the names it hides)
+PATTERNS = ["*.o", "pre*", "?x", "tmp", "a", "*", "[ab]x", "pre[0-9]", "\\.x", "[!a]x", "c.[oa]"]
 
 
 def budget(tier):
